@@ -1,6 +1,12 @@
 // Reference ASCON permutation (forward and inverse) on the canonical 40-byte
-// big-endian state.  Used only by oracles that need p^-1; self-tested against
-// the library (p_ref == ascon_permute and p^-1(p(x)) == x) at start-up.
+// big-endian state, written from the specification (5-bit S-box table, the five
+// rotation pairs, the round constants).  The model is trusted on its own
+// evidence: selftest() compares it with known answers embedded here (p12 of the
+// all-zero state; a digest over 24 pseudo-random states through every
+// first_round) and checks p^-1(p(x)) == x -- it never asks the library under
+// test.  Whether the *library's* permutation agrees with the model is recorded
+// separately (lib_agrees) so that a broken library permutation is a finding for
+// the checks that compare outputs, not a reason to distrust the model.
 #pragma once
 #include <cstdint>
 #include <cstring>
@@ -77,6 +83,22 @@ static inline void permute_inverse(uint8_t b[40], int first_round)
     store(b, x);
 }
 
+// word-parallel forward permutation (boolean S-box formulas); validated against the table-driven one in selftest()
+static inline void permute_fast(uint8_t b[40], int first_round)
+{
+    uint64_t x[5];
+    load(x, b);
+    for (int r = first_round; r < 12; ++r) {
+        uint64_t x0 = x[0], x1 = x[1], x2 = x[2] ^ (uint64_t)(((0xf - r) << 4) | r), x3 = x[3], x4 = x[4];
+        x0 ^= x4; x4 ^= x3; x2 ^= x1;
+        uint64_t t0 = ~x0 & x1, t1 = ~x1 & x2, t2 = ~x2 & x3, t3 = ~x3 & x4, t4 = ~x4 & x0;
+        x0 ^= t1; x1 ^= t2; x2 ^= t3; x3 ^= t4; x4 ^= t0;
+        x1 ^= x0; x0 ^= x4; x3 ^= x2; x2 = ~x2;
+        x[0] = sigma(x0, 0); x[1] = sigma(x1, 1); x[2] = sigma(x2, 2); x[3] = sigma(x3, 3); x[4] = sigma(x4, 4);
+    }
+    store(b, x);
+}
+
 // library permutation on canonical bytes through the public API only
 static inline void lib_permute(uint8_t b[40], int first_round)
 {
@@ -88,22 +110,58 @@ static inline void lib_permute(uint8_t b[40], int first_round)
     ascon_free(&st);
 }
 
+static inline uint64_t lcg_fill(uint64_t s, uint8_t a[40])
+{
+    for (int i = 0; i < 40; ++i) { s = s * 6364136223846793005ULL + 1442695040888963407ULL; a[i] = (uint8_t)(s >> 33); }
+    return s;
+}
+
+// Model-only self test: no library call.
 static inline bool selftest(std::string &err)
 {
-    uint64_t s = 0x1234567;
+    static const uint8_t P12_ZERO[40] = {0x78, 0xea, 0x7a, 0xe5, 0xcf, 0xeb, 0xb1, 0x08, 0x9b, 0x9b, 0xfb, 0x85, 0x13, 0xb5, 0x60, 0xf7,
+                                         0x69, 0x37, 0xf8, 0x3e, 0x03, 0xd1, 0x1a, 0x50, 0x3f, 0xe5, 0x3f, 0x36, 0xf2, 0xc1, 0x17, 0x8c,
+                                         0x04, 0x5d, 0x64, 0x8e, 0x4d, 0xef, 0x12, 0xc9};
+    uint8_t z[40];
+    memset(z, 0, 40);
+    permute(z, 0);
+    if (memcmp(z, P12_ZERO, 40) != 0) { err = "reference permutation fails its embedded known answer (p12 of zero)"; return false; }
+    uint64_t s = 0x1234567, h = 0xcbf29ce484222325ULL;
     for (int t = 0; t < 24; ++t) {
         uint8_t a[40], b[40], c[40];
-        for (int i = 0; i < 40; ++i) { s = s * 6364136223846793005ULL + 1442695040888963407ULL; a[i] = (uint8_t)(s >> 33); }
+        s = lcg_fill(s, a);
         int fr = t % 12;
         memcpy(b, a, 40);
         memcpy(c, a, 40);
         permute(b, fr);
-        lib_permute(c, fr);
-        if (memcmp(b, c, 40) != 0) { err = "reference permutation disagrees with ascon_permute (model cannot be trusted)"; return false; }
+        permute_fast(c, fr);
+        if (memcmp(b, c, 40) != 0) { err = "word-parallel reference permutation disagrees with the table-driven one"; return false; }
+        for (int i = 0; i < 40; ++i) { h ^= b[i]; h *= 0x100000001b3ULL; }
         permute_inverse(b, fr);
         if (memcmp(b, a, 40) != 0) { err = "reference inverse permutation is not the inverse"; return false; }
     }
+    if (h != 0x70c15d2537face54ULL) { err = "reference permutation fails its embedded known-answer digest"; return false; }
     return true;
+}
+
+// Does the library permutation under test agree with the model for this first_round?  (cached; 8 states per round)
+static inline bool lib_agrees(int first_round)
+{
+    static int cache[13];
+    if (first_round < 0 || first_round > 12) return false;
+    if (cache[first_round]) return cache[first_round] > 0;
+    uint64_t s = 0x9e3779b97f4a7c15ULL + (uint64_t)first_round;
+    bool ok = true;
+    for (int t = 0; t < 8 && ok; ++t) {
+        uint8_t a[40], b[40];
+        s = lcg_fill(s, a);
+        memcpy(b, a, 40);
+        permute_fast(a, first_round);
+        lib_permute(b, first_round);
+        ok = memcmp(a, b, 40) == 0;
+    }
+    cache[first_round] = ok ? 1 : -1;
+    return ok;
 }
 
 } // namespace ascon_ref
